@@ -49,14 +49,14 @@ CLAIMED = {
             '<= 2 cuts) - payload content is irrelevant to framing, only boundaries matter. Continuation frames are not '
             'implemented by the library and not in the statement.',
             'DESIGN.md §6 C18'),
-    'C20': ('Finite domain, decided exhaustively: every sequence of <= 3 (thorough 5) operations from a 9-letter alphabet '
+    'C20': ('Finite domain, decided exhaustively: every sequence of <= 4 (thorough 5) operations from a 9-letter alphabet '
             '(register/unregister of three resources with class and string annotations, one of them conflicting; dispatch of '
             'three message classes) is executed on the real dispatcher classes (both server and client variants) and compared '
             'with a reference map: exactly the registered handler is called once with the argument objects unchanged, unknown '
             'classes raise DispatchError and call nothing, duplicate registration is refused, unregister removes exactly the '
             'resource\'s handlers and allows re-registration.',
             'Trusted: sx engine (used here only as an exhaustive case enumerator: every choice is an engine decision). '
-            'Bound: sequence length 3 / 5; state space of the dispatcher is a map over 3 class names, so length 5 reaches every '
+            'Bound: sequence length 4 / 5; state space of the dispatcher is a map over 3 class names, so length 5 reaches every '
             'reachable state.',
             'DESIGN.md §6 C20'),
     'C16': ('Direct SMT encoding of the object the real code produces: for every pattern of the documented grammar the regex '
